@@ -230,18 +230,22 @@ def HandleHandshake (s : Srv) (c : Nat) (req : Req) : Srv × HRes :=
 
 /-! ## session layer -/
 
-/-- `ClientRegistry.Remove(connID)` → `removeConnectionLocked`: close the stream, drop the client index entry
-only if it still names this connection id, drop the connection. -/
+/-- `ClientRegistry.unindexLocked(conn)`: drop every client-index entry that points at the connection object.
+The index holds object pointers; for connections that are in `connMap` (the only ones ever indexed or unindexed)
+object identity and connection id coincide, so the model keeps connection ids. -/
+def unindex (reg : Nat → Option Nat) (o : Nat) : Nat → Option Nat :=
+  fun y => if reg y == some o then none else reg y
+
+/-- `ClientRegistry.Remove(connID)` → `removeConnectionLocked`: close the stream, `unindexLocked`, drop the connection. -/
 def removeConn (s : Srv) (o : Nat) : Srv :=
   match s.ctl o with
   | none => s
-  | some obj =>
-    { s with
-      closed := upd s.closed o true,
-      reg := (match obj.id with
-              | some y => if obj.auth && s.reg y == some o then upd s.reg y none else s.reg
-              | none => s.reg),
-      ctl := upd s.ctl o none }
+  | some _ => { s with closed := upd s.closed o true, reg := unindex s.reg o, ctl := upd s.ctl o none }
+
+/-- `ClientRegistry.DropStaleIndex(conn)`: drop the entries that point at the connection under a client id other than
+its current `ClientID` (called right after the auth handler returned without error). -/
+def dropStaleIndex (s : Srv) (c : Nat) : Srv :=
+  { s with reg := fun y => if s.reg y == some c && (getCtl s c).id != some y then none else s.reg y }
 
 /-- "old connection exists and is another one": `clientRegistry.Remove(oldConn.GetConnID())` -/
 def evictOld (s : Srv) (c x : Nat) : Srv :=
@@ -249,9 +253,10 @@ def evictOld (s : Srv) (c x : Nat) : Srv :=
   | some o => if o != c then removeConn s o else s
   | none => s
 
-/-- `ClientRegistry.UpdateAuth(connID, clientID, userID)` -/
+/-- `ClientRegistry.UpdateAuth(connID, clientID, userID)`: set the fields, `unindexLocked`, index under the client id -/
 def updateAuth (s : Srv) (c x : Nat) : Srv :=
-  { s with ctl := upd s.ctl c (some { getCtl s c with id := some x, auth := true }), reg := upd s.reg x (some c) }
+  { s with ctl := upd s.ctl c (some { getCtl s c with id := some x, auth := true }),
+           reg := upd (unindex s.reg c) x (some c) }
 
 /-- the block guarded by `isControlConnection && IsAuthenticated() && GetClientID() > 0`:
 evict the connection currently registered for the client if it is another one, then `UpdateAuth`. -/
@@ -264,15 +269,19 @@ def respOf : HRes → RespObs
 def ensureCtl (s : Srv) (c : Nat) : Srv :=
   if (s.ctl c).isNone then { s with ctl := upd s.ctl c (some {}) } else s
 
-/-- the tail of `handleHandshake` after `authHandler.HandleHandshake` returned `res`: on error write a failure
-response and return; otherwise write the response (a closed stream makes that fail: return), then, for a control
+/-- after `DropStaleIndex`: write the response (a closed stream makes that fail: return), then, for a control
 connection that is authenticated with a client id, update the registry. -/
-def respond (t : Srv) (c : Nat) (ty : Ty) (res : HRes) : Srv × RespObs :=
-  if res == .err then (t, if t.closed c then .none else .fail)
-  else if t.closed c then (t, .none)
+def respondOk (t : Srv) (c : Nat) (ty : Ty) (res : HRes) : Srv × RespObs :=
+  if t.closed c then (t, .none)
   else if ty != .tunnel && (getCtl t c).auth && (getCtl t c).id.isSome then
     (registryUpdate t c ((getCtl t c).id.getD 0), respOf res)
   else (t, respOf res)
+
+/-- the tail of `handleHandshake` after `authHandler.HandleHandshake` returned `res`: on error write a failure
+response and return; otherwise `DropStaleIndex`, then `respondOk`. -/
+def respond (t : Srv) (c : Nat) (ty : Ty) (res : HRes) : Srv × RespObs :=
+  if res == .err then (t, if t.closed c then .none else .fail)
+  else respondOk (dropStaleIndex t c) c ty res
 
 /-- `SessionManager.handleHandshake` on an already parsed request. -/
 def handleHandshake (s : Srv) (c : Nat) (ty : Ty) (req : Req) : Srv × RespObs :=
